@@ -81,3 +81,19 @@ Proof.
       - apply not_true_iff_false. intros H. apply list_eqb_iff in H. subst. rewrite (proj1 tpo_bytes_cmp) in C. discriminate. }
     destruct (is_view ty); [rewrite view_eq_spec by assumption|]; exact E.
 Qed.
+
+(* ------------------------------------------------------------------ the value comparators the sort kernels
+   run on (index, value) tuples — T::compare through the float key, slice cmp, the 4-byte-prefix comparator of
+   sort_bytes, the view keys — agree with the value order on well-formed non-nested values *)
+Lemma vcmp_leaf cnf a b : leaf a -> leaf b -> vcmp cnf a b = vcmp false a b.
+Proof. destruct a, b; cbn; intros; try contradiction; reflexivity. Qed.
+
+Lemma m_value_cmp_ok ty cnf a b : ok_leaf a -> ok_leaf b -> m_value_cmp ty a b = vcmp cnf a b.
+Proof.
+  intros [Wa La] [Wb Lb]. rewrite (vcmp_leaf cnf a b La Lb). unfold m_value_cmp.
+  destruct (existsb _ ty).
+  - destruct a as [x|h x|x|x], b as [y|h' y|y|y]; try contradiction;
+      try (apply (m_vcmp_spec bytes_cmp bytes_cmp_bc false); assumption).
+    cbn in Wa, Wb. cbn [vcmp]. now apply cmp_bytes_prefix_lex.
+  - apply (m_vcmp_spec (bc_of ty) (bc_of_lex ty) false); assumption.
+Qed.
